@@ -35,8 +35,13 @@
    occurrences are iterated by the plain struct iterator cached at that moment (as maps, not as
    records); the harness recognises these configurations and keeps them out of the
    correspondence (its oracle accepts either form); pointers into the middle of another object
-   (address of a struct field / slice element held as a pointer elsewhere),
-   which FindDuplicatePointers also registers; kinds the iterator panics on
+   (address of a struct field / slice element held as a pointer elsewhere) in so far as
+   FindDuplicatePointers registers the address of every field of an addressable struct as a
+   pointer of its own, which can make such a pointer a duplicate although the value holds it
+   once: the harness builds such values on purpose (a struct and its first field, an array or
+   slice and its first element share an address and differ in type, so they are different
+   [addr]s here), computes [scan] on its side and keeps a case out of the correspondence exactly
+   when that extra registration changes the answer for an object the iterator asks about; kinds the iterator panics on
    (chan, func, complex, uintptr, unsafe pointer, embedded non-struct). *)
 From CE Require Export Model.Rules Base.LE.
 Open Scope N_scope.
@@ -799,6 +804,15 @@ Definition struct_dval (cfg : icfg) (its : list citem) : dval :=
 Definition record_dval (cfg : icfg) (its : list citem) : dval :=
   DMap (map (fun it => (DString (field_name cfg (fst (fst it))), snd it)) (declared_items cfg its)).
 
+(* the fields of a struct as the property counts them ("every non-omitted struct field"): Go
+   promotes the exported fields of an embedded struct to the outer struct whatever the name of the
+   embedded TYPE is, so an embedded struct is looked into even when common.IsFieldExported says no
+   of it (a lower-case type name).  extractFields uses [extractable] and drops such an embedded
+   struct with everything below it: the open class "promoted field of an unexported embedded
+   struct dropped" ([promoted_ok] below excludes it, Props/C05.v refutes the property on it). *)
+Definition cextractable (i : finfo) : bool :=
+  (f_exported i || f_anon i) && negb (omit_eqb (f_omit i) OAlways).
+
 Fixpoint cwalk (cfg : icfg) (v : gval) {struct v} : dval * list citem :=
   match v with
   | VBool b => (DScalar (EBool b), [])
@@ -819,7 +833,7 @@ Fixpoint cwalk (cfg : icfg) (v : gval) {struct v} : dval * list citem :=
            match fs with
            | [] => []
            | (i, x) :: r =>
-               (if extractable i then
+               (if cextractable i then
                   if f_anon i then snd (cwalk cfg x)
                   else [(i, should_include cfg i (is_empty x) (is_value_zero x), fst (cwalk cfg x))]
                 else []) ++ go r
@@ -866,9 +880,17 @@ Definition records_ok (cfg : icfg) : bool :=
 Definition record_names (cfg : icfg) (v : gval) : list bytes :=
   map (fun it : item => field_name cfg (fst (fst it))) (declared_items cfg (items_of cfg v)).
 
+(* an embedded struct with a lower-case type name (not tagged `omit`) promotes no field: what it
+   holds has no exported field to show *)
+Definition promoted_ok (cfg : icfg) (i : finfo) (x : gval) : bool :=
+  negb (f_anon i && negb (f_exported i) && negb (omit_eqb (f_omit i) OAlways))
+  || is_nil (snd (cwalk cfg x)).
+
 (* [descr cfg v]: v avoids the open defect classes of the iterator:
    - no types.Edge (no end-container event is emitted for it),
-   - no signalling float32 NaN (reflect's Float() goes through float64 and quiets it);
+   - no signalling float32 NaN (reflect's Float() goes through float64 and quiets it),
+   - no exported field promoted through an embedded struct whose type name is lower-case
+     (extractFields drops the embedded struct) [promoted_ok];
    and v is well-formed: a value of a registered record type has the fields of that type
    (the same struct type as the registered one), bool slices are shorter than 2^64. *)
 Fixpoint descr (cfg : icfg) (v : gval) {struct v} : bool :=
@@ -881,6 +903,7 @@ Fixpoint descr (cfg : icfg) (v : gval) {struct v} : bool :=
   | VPtr _ p | VOPtr p | VIface p => descr cfg p
   | VStruct sid fs =>
       forallb (fun iv => descr cfg (snd iv)) fs &&
+      forallb (fun iv => promoted_ok cfg (fst iv) (snd iv)) fs &&
       match find_record (c_records cfg) sid with
       | Some r => list_eqb bytes_eqb (decl_keys cfg r) (record_names cfg (VStruct sid fs))
       | None => true
@@ -921,6 +944,8 @@ Definition kept_names (cfg : icfg) (v : gval) : list bytes :=
 (* [vok rc cfg d v]: the value v, standing d containers deep, is within what the validator
    (limits rc) can accept from the iterator without recursion support:
    - strings, resource ids, field names and media types are valid UTF-8 within the size limit;
+     a media type has the form type/subtype the validator asks for ([media_type_valid], rules
+     ValidateMediaType, /repo afaa1e5: a types.Media with any other media type is rejected);
      arrays are within the size limit (and their bit size does not wrap at 2^64);
    - containers nest no deeper than the depth limit;
    - map keys are one-event keyable values (bool, integers, string, uid, time) that stay distinct
@@ -935,7 +960,7 @@ Fixpoint vok (rc : rcfg) (cfg : icfg) (d : N) (v : gval) {struct v} : bool :=
   | VUrl _ t => string_ok rc t
   | VNum _ k es => (len es * 64 <? two64) && length_ok rc (blen (num_bytes k es))
   | VBools _ l => (len l <? two64) && length_ok rc (blen (pack_bools l))
-  | VMedia _ mt data => utf8_valid mt && (blen data * 8 <? two64) && length_ok rc (blen data)
+  | VMedia _ mt data => utf8_valid mt && media_type_valid mt && (blen data * 8 <? two64) && length_ok rc (blen data)
   | VSlice _ es | VArray es =>
       (d + 1 <=? max_container_depth rc) && forallb (vok rc cfg (d + 1)) es
   | VMap _ kvs =>
@@ -995,7 +1020,7 @@ Fixpoint supported (rc : rcfg) (cfg : icfg) (d : N) (v : gval) {struct v} : bool
   | VUrl _ t => string_ok rc t
   | VNum _ k es => (len es * 64 <? two64) && length_ok rc (blen (num_bytes k es))
   | VBools _ l => (len l <? two64) && length_ok rc (blen (pack_bools l))
-  | VMedia _ mt data => utf8_valid mt && (blen data * 8 <? two64) && length_ok rc (blen data)
+  | VMedia _ mt data => utf8_valid mt && media_type_valid mt && (blen data * 8 <? two64) && length_ok rc (blen data)
   | VSlice _ es | VArray es =>
       (d + 1 <=? max_container_depth rc) && forallb (supported rc cfg (d + 1)) es
   | VMap _ kvs =>
@@ -1018,6 +1043,43 @@ Fixpoint supported (rc : rcfg) (cfg : icfg) (d : N) (v : gval) {struct v} : bool
   | VEdge a b c =>
       (d + 1 <=? max_container_depth rc) && non_nil a && non_nil c
       && supported rc cfg (d + 1) a && supported rc cfg (d + 1) b && supported rc cfg (d + 1) c
+  | _ => true
+  end.
+
+(* [supported_any_names]: [supported] without the demand that the emitted field names of a struct
+   are distinct.  Go lets an embedded struct have a field with the name of a field of the outer
+   struct (the outer one shadows it), two embedded structs may both have a field X, and two names
+   may fall together in snake case or through a `name=` tag; extractFields keeps all of them, so the
+   map gets a key twice: the open class "duplicate flattened field name" (Props/C05.v refutes the
+   property stated with this predicate). *)
+Fixpoint supported_any_names (rc : rcfg) (cfg : icfg) (d : N) (v : gval) {struct v} : bool :=
+  match v with
+  | VString s => string_ok rc s
+  | VUrl _ t => string_ok rc t
+  | VNum _ k es => (len es * 64 <? two64) && length_ok rc (blen (num_bytes k es))
+  | VBools _ l => (len l <? two64) && length_ok rc (blen (pack_bools l))
+  | VMedia _ mt data => utf8_valid mt && media_type_valid mt && (blen data * 8 <? two64) && length_ok rc (blen data)
+  | VSlice _ es | VArray es =>
+      (d + 1 <=? max_container_depth rc) && forallb (supported_any_names rc cfg (d + 1)) es
+  | VMap _ kvs =>
+      (d + 1 <=? max_container_depth rc)
+      && forallb (fun kv => is_some (key_of (fst kv)) && supported_any_names rc cfg (d + 1) (fst kv) && supported_any_names rc cfg (d + 1) (snd kv)) kvs
+      && keys_fresh [] (map (fun kv => key_norm (fst kv)) kvs)
+  | VPtr _ p | VOPtr p | VIface p => supported_any_names rc cfg d p
+  | VStruct sid fs =>
+      (d + 1 <=? max_container_depth rc)
+      && forallb (fun iv => supported_any_names rc cfg (d + 1) (snd iv)) fs
+      && match find_record (c_records cfg) sid with
+         | Some r => validate_identifier rc (rt_name r)
+                     && (length (record_names cfg (VStruct sid fs)) =? length (decl_keys cfg r))%nat
+         | None => forallb (string_ok rc) (kept_names cfg (VStruct sid fs))
+         end
+  | VNode x ch =>
+      (d + 1 <=? max_container_depth rc) && supported_any_names rc cfg (d + 1) x
+      && match ch with VSlice _ es => forallb (supported_any_names rc cfg (d + 1)) es | _ => true end
+  | VEdge a b c =>
+      (d + 1 <=? max_container_depth rc) && non_nil a && non_nil c
+      && supported_any_names rc cfg (d + 1) a && supported_any_names rc cfg (d + 1) b && supported_any_names rc cfg (d + 1) c
   | _ => true
   end.
 
